@@ -859,7 +859,12 @@ impl KotoVm {
                     self.execution_state = ExecutionState::Suspended;
                     return Ok(value);
                 }
-                Err(error) => match self.pop_call_stack_on_error(error.clone(), true) {
+                Err(error) => match self.pop_call_stack_on_error(
+                    error.clone(),
+                    // A timeout that was reached in a nested call (e.g. in a function called by
+                    // a native function, or in an overridden operator) can't be caught.
+                    !matches!(error.error, ErrorKind::Timeout(_)),
+                ) {
                     Ok((recover_register, ip)) => {
                         let catch_value = match error.error {
                             ErrorKind::KotoError { thrown_value, .. } => thrown_value,
